@@ -7,7 +7,9 @@ PROP = {
     "level_text": "For each of the three kinds of file the real writers run on generated content (0 B to MBs in quick, "
                   "tens of MB in thorough; 1-6 successive saves incl. unchanged content): dhcpd writeDB (the function "
                   "every lease store goes through) and the one-shot legacy migration; the filter-list refresh path "
-                  "(tryRefreshFilters against a local list server); configuration.write (also through "
+                  "(tryRefreshFilters against a local list server; a quarter of the later refreshes is an interrupted "
+                  "download -- full Content-Length announced, connection dropped at a drawn offset -- after which the "
+                  "stored list must be the complete previous version); configuration.write (also through "
                   "onConfigModified, the path every API change takes) and the rewrite after a schema upgrade "
                   "(parseConfig). An inotify watch on the destination directory and on the staging directory records "
                   "the complete event history of every save; the crash points are the gaps between events, and the "
